@@ -474,8 +474,8 @@ func modeCodec(tier string, args []string) {
 	rounds := 6
 	bigEvery := 40
 	if tier == "thorough" {
-		rounds = 400
-		bigEvery = 5
+		rounds = 60
+		bigEvery = 10
 		giantBudget = 2
 	}
 	n := 0
